@@ -155,6 +155,10 @@ def check(ctx, case):
 
 
 def finalize(ctx):
+    if ctx.tier == "thorough" and ctx.shard == 0:  # ambient contracts while the repository's own pinned tests run
+        from vf import ambient
+
+        ambient.run_tests(ctx, "C17", ["tests/inference/test_paf_grouping.py"], ["toposort_edges"])
     ctx.require("scorers_built", 100)
     ctx.require("assembly_checks", 100)
     ctx.extra["enumerated_up_to_nodes"] = 5 if ctx.tier == "quick" else 6
